@@ -145,3 +145,34 @@ def conf_single(h, frames, R, start, end, first_read_at0=False):
         seen_r = z3.Or(seen_r, z3.And(rs, inR))
         seen_w = z3.Or(seen_w, z3.And(ws, inR))
     return cons
+
+
+def conf_streams(bus, ranges, frames):
+    """Conforming read stream and write stream over a run: `ranges` = [(readable, writable, start, end)].
+    Each stream starts a transaction at a register's first address; reads continue strictly ascending,
+    writes at consecutive addresses, inside that register; anything at unmapped addresses."""
+    W = bus.addr_width + 2
+    cons = []
+    for kind in ("r", "w"):
+        regs = [(s, e) for rd, wr, s, e in ranges if (rd if kind == "r" else wr)]
+        valid = z3.BoolVal(False)
+        cs, ce, last = bv(W, 0), bv(W, 0), bv(W, 0)
+        for f in frames:
+            A = zext(f.sig(bus.addr), W)
+            stb = is1(f.sig(bus.r_stb if kind == "r" else bus.w_stb))
+            hits = z3.Or(*[z3.And(z3.UGE(A, bv(W, s)), z3.ULT(A, bv(W, e))) for s, e in regs]) if regs else z3.BoolVal(False)
+            begins = z3.Or(*[A == bv(W, s) for s, e in regs]) if regs else z3.BoolVal(False)
+            if kind == "r":
+                cont = z3.And(valid, z3.UGE(A, cs), z3.ULT(A, ce), z3.UGT(A, last))
+            else:
+                cont = z3.And(valid, z3.UGE(A, cs), z3.ULT(A, ce), A == last + 1)
+            cons.append(z3.Implies(z3.And(stb, hits), z3.Or(begins, cont)))
+            act = z3.And(stb, hits)
+            ncs, nce = cs, ce
+            for s, e in regs:
+                ncs = z3.If(z3.And(act, A == bv(W, s)), bv(W, s), ncs)
+                nce = z3.If(z3.And(act, A == bv(W, s)), bv(W, e), nce)
+            cs, ce = ncs, nce
+            last = z3.If(act, A, last)
+            valid = z3.Or(valid, act)
+    return cons
